@@ -281,6 +281,8 @@ class GenState(object):
             ch = g.children(p)
             old = rng.choice(ch)
             cand = self.ids(lambda n: n.typ == g.nodes[old].typ)
+            if not cand:
+                return None
             return ["replace_child", p, old, rng.choice(cand)]
         if k == "set_func":
             fs = self.ids(lambda n: n.kind == "F" and n.fkey[0] == "lib")
